@@ -20,6 +20,7 @@ TITLE_ATOMS = [
     "A", "B", "C", "Model description", "a b", " x ", "x ", "\tt", "n\n", "é", "日本", "\U0001F600",
     "\\/", "a\\/b", "\\/a", "a\\/", "\\", "a\\", "\x1f", "a\x1fb", "\x1fa", " ", " z", "#h", "- l",
     "", " ", "A", "B",
+    "a  b", "a\u00a0b", "a\tb", "x\u3000y", "95\u202f%", "two  spaces  twice",
 ]
 
 
@@ -170,7 +171,7 @@ def gen_op(rng, known, weights):
             if k in seen or k in RESERVED:
                 continue
             seen.add(k)
-            items.append([k, rng.choice(["p.png", "fig/a b.png", "", "q.jpg"])])
+            items.append([k, rng.choice(["p.png", "fig/a b.png", "", "q.jpg", "https://host/x.png", "./hist.png", "figures//a.png", "a/./b.png", "../up.png", "C:\\plots\\a.png"])])
         return dict(op="card.add_plot", description=gen_opt(rng, ["desc", "d\ne"]), alt_text=gen_opt(rng, ["ALT"]),
                     folded=rng.random() < 0.3, items=items)
     if kind == "add_table":
